@@ -225,15 +225,20 @@ def retype_variant(rng, pv):
 
 def gen_program(rng, max_calls=8):
     nasty = rng.random() < 0.2
+    # names from a tiny fixed pool in some programs: files written one after another in a process then share paths
+    if rng.random() < 0.3:
+        name_of = lambda kind: rng.choice(['G', 'H'] if kind == 'g' else ['a', 'b', 'c', 'd'])
+    else:
+        name_of = lambda kind: gen.gen_name(rng, nasty)
     groups = []
     for _ in range(rng.randint(1, 3)):
-        g = gen.gen_name(rng, nasty)
+        g = name_of('g')
         if g not in groups:
             groups.append(g)
     chans = []
     for _ in range(rng.randint(1, 5)):
         g = rng.choice(groups)
-        c = gen.gen_name(rng, nasty)
+        c = name_of('c')
         if (g, c) not in [(x['group'], x['channel']) for x in chans]:
             chans.append({'group': g, 'channel': c, 'kind': gen_channel_kind(rng)})
     ncalls = rng.randint(1, max_calls)
